@@ -152,9 +152,9 @@ theorem exec_valid (c : Call) (p : Pt) (w : World) (p' : Pt) (w' : World) (hv : 
 
 set_option maxHeartbeats 3200000 in
 /-- the service loops end when their socket calls give the results of a terminated link -/
-theorem service_exit (w : World) (p : SPt) (hw : After w) : serviceRun w 3 p = .exited := by
+theorem service_exit (srv : Srv) (w : World) (p : SPt) (hw : After w) : serviceRun srv w 3 p = .exited := by
   obtain ⟨ht, hr, hs, hd, hst⟩ := hw
-  cases p <;> cases hkind : w.s.kind <;> cases hb : w.s.bound <;>
+  cases srv <;> cases p <;> cases hkind : w.s.kind <;> cases hb : w.s.bound <;>
   rcases hst with ⟨h2, h3⟩ | ⟨h2, h3⟩ <;> (try simp [hkind, hb] at h2 h3) <;>
   simp_all (config := { failIfUnchanged := false })
     [serviceRun, resultAfter, SPt.call, serviceStep, classify, run, exec, start, body, bodyRecv, bodySend, bodyAccept,
